@@ -81,6 +81,13 @@ static pixman_format_code_t fmts[] = { PIXMAN_a8r8g8b8, PIXMAN_a8, PIXMAN_x8r8g8
 static ticket *do_create (vf_rng *r)
 {
     if (nT >= MAXT || npool >= 12) return NULL;
+    /* creations the library refuses (a format code whose depth exceeds its bits per pixel, a stride that is not a multiple of 4 bytes):
+     * NULL, and nothing may stay allocated */
+    if (vf_chance (r, 1, 12)) { pixman_image_t *bad; uint32_t four[4];
+        if (vf_chance (r, 1, 2)) LIB (bad = pixman_image_create_bits (PIXMAN_FORMAT (8, PIXMAN_TYPE_ARGB, 8, 8, 8, 8), (int)vf_range (r, 1, 9), (int)vf_range (r, 1, 5), NULL, 0));
+        else LIB (bad = pixman_image_create_bits (PIXMAN_a8r8g8b8, 1, 1, four, 6));
+        vf_count ("refused_creations", 1); H (" C(refused)");
+        if (bad) { viol ("C20:malformed-create-accepted", "pixman_image_create_bits accepted a malformed request"); LIB (pixman_image_unref (bad)); } }
     ticket *t = &T[nT]; memset (t, 0, sizeof *t); t->id = nT;
     int k = (int)(vf_next (r) % 10); t->kind = k < 4 ? 0 : k < 6 ? 1 : k - 4;
     pixman_image_t *img = NULL;
@@ -163,6 +170,9 @@ static void do_props (ticket *t, vf_rng *r)
               else { int n = 0; pixman_fixed_t *p = pixman_filter_create_separable_convolution (&n, pixman_double_to_fixed (0.5 + vf_unit (r) * 2), pixman_double_to_fixed (0.5 + vf_unit (r) * 2),
                                  VF_PICK (r, ((pixman_kernel_t[]){ PIXMAN_KERNEL_BOX, PIXMAN_KERNEL_LINEAR, PIXMAN_KERNEL_IMPULSE })), PIXMAN_KERNEL_LINEAR, PIXMAN_KERNEL_BOX, PIXMAN_KERNEL_BOX, (int)vf_range (r, 0, 2), (int)vf_range (r, 0, 2));
                      if (p) { LIB (pixman_image_set_filter (img, PIXMAN_FILTER_SEPARABLE_CONVOLUTION, p, n)); free (p); } }
+              /* a request the library must refuse (the parameter count times the element size does not fit): the image keeps what it had */
+              if (vf_chance (r, 1, 4)) { pixman_fixed_t p4[4] = { 65536, 65536, 65536, 65536 }; pixman_bool_t ok2; LIB (ok2 = pixman_image_set_filter (img, PIXMAN_FILTER_CONVOLUTION, p4, 0x7fffffff));
+                  vf_count ("set_filter_refused_requests", 1); if (ok2) viol ("C20:set_filter-accepts-impossible-size", "set_filter with n_params = 0x7fffffff returned TRUE"); H ("(refused)"); }
               vf_count ("set_filter", 1); break; }
     case 2: { int k = (int)(vf_next (r) % 4);
               if (k == 0) LIB (pixman_image_set_clip_region32 (img, NULL));
